@@ -77,7 +77,7 @@ FewV == { Simple, FullV, RV(FALSE, 1, TRUE, FALSE, <<>>, <<>>), RV(TRUE, 0, FALS
 
 \* separator layouts: <<blanks before, blanks after>>
 CommaStyles == { << <<>>, <<W>> >>, << <<>>, <<>> >>, << <<W>>, <<W>> >>, << <<>>, <<NLt, W>> >>, << <<NLt>>, <<>> >> }
-PipeStyles  == { << <<W>>, <<W>> >>, << <<>>, <<>> >>, << <<NLt, W>>, <<W>> >> }
+PipeStyles  == { << <<W>>, <<W>> >>, << <<>>, <<>> >>, << <<NLt, W>>, <<W>> >>, << <<W>>, <<NLt, W>> >> }
 Sep(k, sty) == sty[1] \o <<P(k)>> \o sty[2]
 
 Substvar(e) == << Tk("DOLLAR", e, 0, "sv", 0, FALSE), Tk("L_CURLY", e, 0, "sv", 0, FALSE), Tk("IDENT", e, 0, "sv", 0, FALSE),
